@@ -14,5 +14,19 @@ for s in $SEEDS; do
   du=$(grep "demo unpatched" .work/seed_$s.log | grep -o "rc=[0-9]*")
   dp=$(grep "demo patched" .work/seed_$s.log | grep -o "rc=[0-9]*")
   q=$(grep -A1 "^VIOLATION" .work/seed_$s.log | grep "^    " | head -1 | cut -c1-110)
+  grep -v "^$s " $OUT > $OUT.tmp 2>/dev/null; mv $OUT.tmp $OUT
   echo "$s property=$prop demo_clean:$du demo_patched:$dp $rc wall=$((t1-t0))s |$q" >> $OUT
+  python3 - "seeded/$s/meta.json" "$rc" ".work/seed_$s.log" <<'PYEOF'
+import json, sys, re, datetime
+path, rc, log = sys.argv[1:4]
+m = json.load(open(path))
+lines = [l.strip()[:300] for l in open(log) if re.match(r"VIOLATION|SUMMARY|HARNESS-ERROR", l)][:8]
+c = m.setdefault("confirmed_by_me", {})
+first = c.get("check_rc")
+c["recheck"] = {"check_rc": int(rc.split("=")[1]) if "=" in rc else None, "check_lines": lines,
+                "note": "quick check of the property re-run on the patched tree with the current machinery"}
+if first == 0 and c["recheck"]["check_rc"] == 1:
+    c["recheck"]["note"] += "; MISSED by the machinery as it was when the seed arrived, caught after the strengthening recorded in DESIGN.md 9.5"
+json.dump(m, open(path, "w"), indent=1)
+PYEOF
 done
